@@ -73,7 +73,15 @@ CHECKS["C03"] = (
     "slice bound pair in [-n-1,n+1] of located sequences, reverse_complement and append (acceptance and recorded location) are covered.",
     _NOTE + " Coordinates are realised (str slicing is a C boundary): the claim is exhaustive over the stated finite spaces, not over unbounded integers.",
     "DESIGN.md §3 C03")
-for _p in ["C04", "C07", "C08", "C09", "C10", "C11", "C13", "C17",
+CHECKS["C04"] = (
+    _CH,
+    "Hierarchies are built directly from Parent objects (three construction idioms incl. io.parser's); child and placement block "
+    "layouts are fully symbolic (<=2 blocks each, either strand; depth 3 with single-block placements in quick, deeper/wider in "
+    "thorough): the i-th base of the lifted location equals the composition of the per-level point maps for a symbolic index i, "
+    "strand = product. Chunk legs: symbolic chunk offset on either strand, lift down and back == intersection with the window, "
+    "chunk-to-chunk re-lift; sequence preservation by identity and by type on tagged sequences at depth 2 and 3; missing ancestors refused.",
+    _NOTE, "DESIGN.md §3 C04")
+for _p in ["C07", "C08", "C09", "C10", "C11", "C13", "C17",
            "C19", "C20"]:
     NOT_APPLICABLE[_p] = "check not built yet (build in progress; see DESIGN.md §3 for the planned solver-based check)"
 NOT_APPLICABLE["C12"] = ("GenBank writer cannot emit a feature on the installed Biopython (SeqFeature(strand=) TypeError), the "
